@@ -253,10 +253,11 @@ func runC15(tier string) int {
 		}
 		mu.Unlock()
 	})
+	cliFlagSequences(fx, work, rep, "regen: ")
 	rep.Set("states", totalStates)
 	rep.Set("transitions", totalTrans)
 	rep.Set("traces_validated_against_impl", cliRuns)
-	rep.Set("evaluations", cliRuns)
+	rep.Add("evaluations", cliRuns)
 	rep.Set("distinct_nontrivial", totalStates)
 	rep.Set("machines", len(machines))
 	rep.Set("samples", samples)
